@@ -23,6 +23,8 @@ GRIDS = {
            ('v', (0, 1))],                      # 32 points (sampled only)
     'g444': [('x', (0, 2)), ('y', (0, 2)), ('z', (0, 1))],  # 32 points
     'n44': [('x', (-3, -1)), ('y', (-1, 0))],   # -4..-1 x -2..1
+    # two unsigned bitfields of equal width and opposite sign
+    'pn44': [('x', (0, 2)), ('y', (-3, -1))],   # 0..3 x -4..-1
 }
 
 
